@@ -11,6 +11,8 @@
 #                                                 unions inside unions kept nested; demanded for every documented type,
 #                                                 class printer_fun = the open finding)
 #   c16.total     <hex line>,<hex line>,...
+#   c16.server    <setting> <kind T|P|C> <hex line>,...   (see harness/legs_c16.go: the real server, block with a malformed
+#                                                 line against the block with that line as a remark, per warning setting)
 # A comment line is the CommentLine.Str the Lua lexer hands to ParseCommentFragment: the text after the leading
 # "--" (so an annotation line starts with "-@", an alias continuation line with "-|").
 # Spec trees are generated here (derivations of the documented grammar, depth <= 4, plus towers of array suffixes up
@@ -371,6 +373,82 @@ def gen_total(rng, tier):
     return out
 
 
+# ----------------------------------------------------------------------------- leg c16.server
+SRV_SETTINGS = ["on", "off", "off", "alloff", "none", "json18", "jsonwarn0"]
+SRV_BAD = [b"-@param )", b"-@type (", b"-@field x", b"-@return", b"-@alias", b"-@generic", b"-@class", b"-@overload fun(",
+           b"-@type table<string", b"-@param a", b"-@vararg", b"-@field public", b"-@type fun(a:", b"-@return |", b"-@type Leaf |",
+           b"-@param a Leaf[", b"-@class Node :", b"-@field gamma", b"-@type 'x", b"-@alias Q |"]
+SRV_VALID = {
+    "T": [[b"-@type Leaf"], [b"-@type Leaf @the valid neighbour"], [b"-@type Leaf[]"], [b"-@type table<string, Leaf>"],
+          [b"-@type Leaf | nil"]],
+    "P": [[b"-@param a Leaf", b"-@return Leaf"], [b"-@param a Leaf @first", b"-@return Leaf @result"],
+          [b"-@param a Leaf"], [b"-@return Leaf"]],
+    "C": [[b"-@class Node", b"-@field gamma number"], [b"-@class Node : Leaf", b"-@field gamma number", b"-@field delta Leaf"],
+          [b"-@class Node : Leaf"]],
+}
+
+
+def srv_ok_line(b):
+    if b.startswith(b"[") or b"\r" in b or b"\n" in b or b"\x00" in b:
+        return False
+    try:
+        b.decode("utf8")
+    except UnicodeDecodeError:
+        return False
+    return True
+
+
+def gen_server(rng, tier):
+    """a comment block with valid annotation lines and 1..2 malformed ones at every position, under every setting that
+    shows / hides the annotation warnings; the real server must answer hover / completion on the declared names as it
+    does when the malformed lines are plain remarks"""
+    n = {"quick": 500, "thorough": 6000, "search": 300}[tier]
+    specs = [(g_stat(rng, rng.choice([0, 1, 2])), "c") for _ in range(n)]
+    good = [bytes.fromhex(h) for h in show_many("c16.show", specs)]
+    out = []
+    # the fixed shapes: every setting, every kind, malformed line first / in the middle / last
+    for st in ["on", "off", "alloff", "none", "json18", "jsonwarn0"]:
+        for kind in "TPC":
+            v = SRV_VALID[kind][0]
+            for pos in range(len(v) + 1):
+                lines = v[:pos] + [b"-@param )"] + v[pos:]
+                out.append("%s %s %s" % (st, kind, ",".join(hexs(x) for x in lines)))
+    for _ in range(n):
+        kind = rng.choice("TTPC")
+        lines = list(rng.choice(SRV_VALID[kind]))
+        if rng.random() < 0.3:
+            lines.insert(rng.randrange(len(lines) + 1), rng.choice([b" plain remark", b"- text", b"-@unknown x"]))
+        if rng.random() < 0.25:
+            g = rng.choice(good)
+            # a documented line of any form as one more neighbour (not one that re-types the declaration)
+            if srv_ok_line(g) and not g.startswith((b"-@type", b"-@param", b"-@return", b"-@class", b"-@field", b"-@alias", b"-@enum")):
+                lines.insert(rng.randrange(len(lines) + 1), g)
+        for _ in range(rng.choice([1, 1, 1, 2])):
+            m = rng.random()
+            if m < 0.55:
+                bad = rng.choice(SRV_BAD)
+            elif m < 0.85:
+                bad = clean(corrupt(rng, rng.choice(lines + [rng.choice(good)])))
+            else:
+                bad = clean(garbage_line(rng))
+            if not srv_ok_line(bad) or bad.startswith(b"-|"):
+                bad = rng.choice(SRV_BAD)
+            lines.insert(rng.randrange(len(lines) + 1), bad)
+        out.append("%s %s %s" % (rng.choice(SRV_SETTINGS), kind, ",".join(hexs(x) for x in lines)))
+    return out
+
+
+def shrink_server(case):
+    st, kind, ls = case.split(" ")
+    hs = ls.split(",")
+    for i in range(len(hs)):
+        if len(hs) > 1:
+            yield "%s %s %s" % (st, kind, ",".join(hs[:i] + hs[i + 1:]))
+    for s2 in ("off", "none"):
+        if st not in ("on", s2):
+            yield "%s %s %s" % (s2, kind, ls)
+
+
 def nontriv_line(c):
     f = c.split(" ")
     return len(f[0]) > 16
@@ -385,6 +463,13 @@ LEGS = [
     Leg("c16.file", gen_file, shrink=shrink_line, nontrivial=lambda c: "," in c),
     Leg("c16.print", gen_print, shrink=shrink_line, nontrivial=lambda c: len(c) > 12),
     Leg("c16.total", gen_total, shrink=shrink_line, nontrivial=lambda c: len(c) > 8),
+    # the real server: a malformed line does not disturb the valid lines of its block, whether the annotation warnings
+    # are shown or not (implementation against itself with the malformed lines turned into remarks; the model column is
+    # the constant "=")
+    Leg("c16.server", gen_server, shrink=shrink_server, per_case_s=3.0, py_spec=lambda c: "=",
+        canon_impl=lambda o: "=" if o == "= nomalformed" else o, nontrivial=lambda c: True,
+        describe=lambda c: " ".join(c.split(" ")[:2]) + " " + " / ".join(
+            "--" + bytes.fromhex(h).decode("utf8", "replace") for h in c.split(" ")[2].split(",") if h != "-")),
 ]
 
 TRUSTED = vlib.TRUSTED_COMMON + [
@@ -401,4 +486,6 @@ def main(tier, seed):
                               coq_targets=["Proofs/AnnTotal.vo"],
                               assumptions=["Go stack depth is not modelled: nesting depth is bounded by the line length "
                                            "(C01 partial (a)); the deep-nesting cases of c16.total run to 1000 (quick) / 4000 (thorough) levels",
-                                           "type-18 diagnostics and hover text (the glue after ParseCommentFragment) are not part of this check"])
+                                           "type-18 diagnostics and the hover / completion glue after ParseCommentFragment have no model: leg c16.server compares "
+                                           "the real server with itself (malformed lines turned into remarks) under the settings on / off / alloff / none / "
+                                           "luahelper.json"])
